@@ -26,6 +26,7 @@ pub mod c03;
 pub mod c06;
 pub mod c11;
 pub mod c14;
+pub mod c15;
 pub mod c20;
 pub mod common;
 pub mod hon;
